@@ -235,3 +235,47 @@ Proof.
   destruct (check_policy c pol ch false (p_src k, p_dst k, p_proto k, sport_of k, dport_of k)) as [st ch'] eqn:Hc.
   cbn [snd]. eapply check_policy_sound; eassumption.
 Qed.
+
+(* ---------- histories: what error pings can and cannot do to an inbound decision ---------- *)
+Lemma cache_get_mark_router ch k remote st :
+  cache_get k (mark_router ch remote st) =
+  match cache_get k ch with
+  | Some (inb, s) => let '(_, rem, _, _, _) := k in Some (inb, if rem =? remote then st else s)
+  | None => None
+  end.
+Proof.
+  induction ch as [|[[[[[l r] p] lp] rp] [inb s]] t IH]; cbn [mark_router map cache_get]; [reflexivity|].
+  destruct k as [[[[kl kr] kp] klp] krp].
+  destruct (N.eqb_spec r remote) as [->|Hne]; cbn [cache_get].
+  - destruct (ckey_eqb (kl, kr, kp, klp, krp) (l, remote, p, lp, rp)) eqn:E.
+    + unfold ckey_eqb in E. apply andb_true_iff in E. destruct E as [E _]. apply andb_true_iff in E. destruct E as [E _].
+      apply andb_true_iff in E. destruct E as [E _]. apply andb_true_iff in E. destruct E as [_ E]. apply N.eqb_eq in E. subst kr.
+      rewrite N.eqb_refl. reflexivity.
+    + exact IH.
+  - destruct (ckey_eqb (kl, kr, kp, klp, krp) (l, r, p, lp, rp)) eqn:E.
+    + unfold ckey_eqb in E. apply andb_true_iff in E. destruct E as [E _]. apply andb_true_iff in E. destruct E as [E _].
+      apply andb_true_iff in E. destruct E as [E _]. apply andb_true_iff in E. destruct E as [_ E]. apply N.eqb_eq in E. subst kr.
+      replace (r =? remote) with false by (symmetry; apply N.eqb_neq; exact Hne). reflexivity.
+    + exact IH.
+Qed.
+
+(* an inbound packet whose connection state is cached with a status other than "allowed" is
+   dropped — whatever that status is (denied, prohibited, unreachable, rejected, ...) *)
+Theorem inbound_cached_not_allowed_drops c pol ch handle unsealed fsrc fdst k inb st :
+  cache_get (p_dst k, p_src k, p_proto k, dport_of k, sport_of k) ch = Some (inb, st) -> st <> st_allowed ->
+  fst (inbound c pol ch handle unsealed fsrc fdst k) = Drop.
+Proof.
+  intros Hc Hst. unfold inbound.
+  repeat match goal with |- context [if ?b then (Drop, ch) else _] => destruct b; [reflexivity|] end.
+  unfold check_policy. rewrite Hc. cbn [fst]. replace (st =? st_allowed) with false by (symmetry; apply N.eqb_neq; exact Hst). reflexivity.
+Qed.
+
+(* re-marking by an error ping with a status other than "allowed" never turns a denied
+   connection into a deliverable one *)
+Theorem mark_router_keeps_denied ch k remote st inb s :
+  cache_get k ch = Some (inb, s) -> s <> st_allowed -> st <> st_allowed ->
+  exists s', cache_get k (mark_router ch remote st) = Some (inb, s') /\ s' <> st_allowed.
+Proof.
+  intros Hc Hs Hst. rewrite cache_get_mark_router, Hc. destruct k as [[[[kl kr] kp] klp] krp].
+  destruct (kr =? remote); eexists; split; try reflexivity; assumption.
+Qed.
